@@ -783,8 +783,8 @@ def _corr_modes(ctx):
                                                 "SquaredL2Loss(Matrix)/float64", "LinearOperator(eval_fn)/float64", "XRayTransform3D/float32")]
         heavy = [e for e in ents if ("TVNorm" in e.name or e.kind == "optimiser" or "XRayTransform2D" in e.name)]
         rest = [e for e in ents if e not in always and e not in heavy]
-        pick_h = [heavy[int(i)] for i in sorted(ctx.rng.choice(len(heavy), size=min(len(heavy), 4), replace=False))]
-        pick_r = [rest[int(i)] for i in sorted(ctx.rng.choice(len(rest), size=min(len(rest), 15), replace=False))]
+        pick_h = [heavy[int(i)] for i in sorted(ctx.rng.choice(len(heavy), size=min(len(heavy), 3), replace=False))]
+        pick_r = [rest[int(i)] for i in sorted(ctx.rng.choice(len(rest), size=min(len(rest), 12), replace=False))]
         ents = always + pick_h + pick_r
     ctx.extra["catalog_run"] = sorted(e.name for e in ents)
     # fresh-process reference (started now, collected after the in-process modes): the entries in REVERSED order, each
@@ -1303,7 +1303,7 @@ def _corr_reuse(ctx):
     for c in ("PGMStepSize", "BBStepSize", "AdaptiveBBStepSize", "LineSearchStepSize", "RobustLineSearchStepSize"):
         names += [f"pgm:{c}:plain", f"pgm:{c}:acc"]
     for nm in names:
-        for nsteps in ((1, 2) if (ctx.thorough or nm.startswith("admm")) else (1,)):
+        for nsteps in ((1, 2) if ctx.thorough else (1,)):
             _reuse_case(ctx, nm, nsteps)
 
 
